@@ -65,7 +65,7 @@ def main() -> None:
             d = os.path.dirname(name)
             if d:
                 os.makedirs(d, exist_ok=True)
-            with open(name, "w", encoding="utf8") as f:
+            with open(name, "w", encoding="utf8", errors="surrogateescape", newline="") as f:
                 f.write(text)
             os.utime(name, (clock, clock))
         emit({"start": i, "t": time.time(), "cpu": time.process_time()})
